@@ -6,5 +6,9 @@ open Biogo.Properties.C14
 #print axioms retire_timing_ok
 #print axioms run_accumulates
 #print axioms filter_complete
+#print axioms filter_complete_complement
+#print axioms filter_complete_strand
 #print axioms filter_incomplete_pinned
 #print axioms filter_incomplete_flush
+#print axioms filter_incomplete_ticker
+#print axioms ticker_repair_conservative
